@@ -49,6 +49,11 @@ Apply(S, o) ==
       [] o.op = "Partition" -> IF DOMAIN S.n = {} THEN R(S, "PropertyGraphQueryException", [k |-> "none"])
                                ELSE R(S, "ok", [k |-> "adms", v |-> Partition(S)])                 \* the aggregate is untouched
       [] o.op = "PartitionAndRekey" -> R(S, "ok", [k |-> "adms", v |-> [d \in DelIds(S) |-> Rekey(ADM(S, d), d, "G-" \o d)]])
+      \* re-keying to the key the entries already have, and re-keying twice, change nothing more
+      [] o.op = "PartitionAndRekeySame"  -> R(S, "ok", [k |-> "adms", v |-> Partition(S)])
+      [] o.op = "PartitionAndRekeyTwice" -> R(S, "ok", [k |-> "adms", v |-> [d \in DelIds(S) |-> Rekey(ADM(S, d), d, "G-" \o d)]])
+      \* the aggregate model grows (it is a live view): the next partition is that of the grown model
+      [] o.op = "Grow" -> R([S EXCEPT !.n = [x \in (DOMAIN S.n) \cup {o.x} |-> IF x = o.x THEN o.nd ELSE S.n[x]]], "ok", [k |-> "none"])
 
 \* ---------------------------------------------------------------- the clauses of the statement, on (A, its partition)
 DelegatedPresent(A, P) == \A d \in DOMAIN P : \A x \in Annotated(A, d) : x \in DOMAIN P[d].n /\ P[d].n[x].deleg = RestrictTo(A.n[x].deleg, d)
